@@ -578,6 +578,11 @@ def c01(backend, seed, n, tmp):
                 ev.data["deep"]["a"].append("INJECTED")
             ev.timestamp = dt(ts_us + 5 * 10 ** 6)
             ev.duration = timedelta(seconds=77)
+            if not bulk and r is not None and r is not ev:
+                # the event handed out by insert() is the caller's as well
+                r.data["RETURNED"] = 1
+                r.duration = timedelta(seconds=55)
+                r.timestamp = dt(ts_us + 9 * 10 ** 6)
             for how, got in (("lookup", b.get_by_id(eid)), ("listing", next((e for e in b.get(-1) if e.id == eid), None))):
                 if got is None:
                     bad.append(f"{how}: inserted event {eid} not returned")
